@@ -18,6 +18,7 @@ import itertools
 from ..gen import c01_enc as E
 from ..gen import c01_rsmi as R
 from ..gen import c02_enc as X
+from ..gen import c02_hist as HS
 from . import C01 as P1
 
 PID = "C02"
@@ -162,10 +163,75 @@ def impl_list(case):
     return [[E.obs_its(d["ITS"]), E.obs_its(d["K"])] for d in out]
 
 
+def _wrap_graphs(case):
+    """(G, H) as the wrapper's own front end produces them (RDKit + MolToGraph: monitored, not verified)"""
+    from synkit.IO.chem_converter import rsmi_to_graph
+    if case["wrap"] == "implicit_rule":
+        from synkit.Chem.Reaction import remove_explicit_H_from_rsmi
+        return rsmi_to_graph(remove_explicit_H_from_rsmi(case["rsmi"]))
+    return rsmi_to_graph(case["rsmi"])
+
+
+def _raw_nx(g):
+    """networkx graph with the attribute values exactly as in the JSON (order stays a LIST, standard_order may be None / a string / absent)"""
+    import networkx as nx
+    G = nx.Graph()
+    for n, a_ in g["nodes"]:
+        G.add_node(n, **a_)
+    for u, v, a_ in g["edges"]:
+        G.add_edge(u, v, **a_)
+    return G
+
+
+def impl_raw(case):
+    """values OUTSIDE the model's domain (monitored only: the calls must not raise; no clause is demanded)"""
+    from synkit.Graph.ITS.its_decompose import get_rc
+    from synkit.Graph.Context.radius_expand import RadiusExpand
+    I = _raw_nx(case["I"])
+    out = []
+    for f in (lambda: sorted(get_rc(I).nodes), lambda: sorted(map(sorted, get_rc(I).edges)),
+              lambda: sorted(RadiusExpand.find_unequal_order_edges(I)), lambda: sorted(RadiusExpand.extract_k(I, 1).nodes),
+              lambda: sorted(map(sorted, RadiusExpand.remove_normal_edges(I, "standard_order").edges))):
+        try:
+            out.append(f())
+        except Exception as e:          # recorded, not demanded
+            out.append("raised " + type(e).__name__)
+    return out
+
+
+def impl_wrap(case):
+    """thin wrappers around get_rc / extract_k"""
+    w = case["wrap"]
+    if w == "rsmi_to_its":
+        from synkit.IO.chem_converter import rsmi_to_its
+        return E.obs_its(rsmi_to_its(case["rsmi"], core=case["core"]))
+    if w == "implicit_rule":
+        from synkit.Rule.Modify.implict_rule import implicit_rule
+        if case.get("style") == "pos":
+            rc = implicit_rule(case["rsmi"], case["disc"], case["bal"])
+        else:
+            rc = implicit_rule(case["rsmi"], balance_its=case["bal"], disconnected=case["disc"])
+        return X.obs_xits(rc)
+    if w == "hier":
+        # HierContext.fit extracts the contexts of radius 0..max_radius from the SAME (deep-copied) ITS objects, one radius after the other
+        from synkit.Graph.Context.hier_context import HierContext
+        data = [{"R-id": i, "ITS": E.to_nx(g)} for i, g in enumerate(case["Is"])]
+        res, _tpl = HierContext(max_radius=case["R"]).fit(data)
+        by = {d["R-id"]: d for d in res}
+        return [X.obs_ctx(by[i]["K"]) for i in range(len(data))]
+    raise AssertionError(w)
+
+
 def impl(case):
     from synkit.Graph.ITS.its_decompose import get_rc
     from synkit.Graph.Context.radius_expand import RadiusExpand
     from ..tok import S
+    if "hist" in case:
+        return HS.run_history(case, False)[0]
+    if "wrap" in case:
+        return impl_wrap(case)
+    if case.get("raw"):
+        return impl_raw(case)
     if "X" in case:
         return impl_x(case)
     if "Is" in case:
@@ -187,6 +253,21 @@ def impl(case):
 def coq_case(case):
     worker_init()
     try:
+        if "hist" in case:
+            return HS.coq_history(case)
+        if "wrap" in case:
+            w = case["wrap"]
+            if w == "hier":
+                return "tlist (fun g => tctx (extract_k_z g (%d))) %s" % (case["R"], X.coq_its_list(case["Is"]))
+            G, H = _wrap_graphs(case)
+            if G is None or H is None:
+                return None
+            lg, lh = E.coq_mgraph(E.from_nx(G)), E.coq_mgraph(E.from_nx(H))
+            if w == "rsmi_to_its":
+                return "tits (%s(its_construct %s %s))" % ("get_rc " if case["core"] else "", lg, lh)
+            return "txits (get_rc_x K_default %s false (emb (its_construct_ab false %s %s %s)))" % (E.cb(case["disc"]), E.cb(case["bal"]), lg, lh)
+        if case.get("raw"):
+            return None
         if "X" in case:
             return "run_opts %s %s" % (X.coq_keys(case["keys"]), X.coq_xits(case["X"]))
         if "Is" in case:
@@ -246,6 +327,8 @@ def its_class(I):
             return None
     std, ia = True, True
     for u, v, d in I.edges(data=True):
+        if u == v:
+            return None                      # self loops: outside the property's domain (correspondence only)
         o = d.get("order")
         if not isinstance(o, (tuple, list)) or len(o) != 2 or "standard_order" not in d:
             return None
@@ -455,7 +538,7 @@ def oracle_helpers(case):
     from synkit.Graph.Context.radius_expand import RadiusExpand
     import copy
     I = _its_nx(case)
-    if I is None:
+    if I is None or any(u == v for u, v in I.edges):
         return []
     cls = its_class(I)
     fails = []
@@ -582,8 +665,94 @@ def sides_clause(case, I):
     return []
 
 
+def oracle_hist(case):
+    """every step judged against a fresh evaluation (HS.run_history) and, on ITS values of a recognised class, the centre /
+    context steps against the plain-set reference (changed-or-HH bonds, BFS ball)"""
+    _obs, fails = HS.run_history(case, True)
+    if fails:
+        return fails[:3]
+    vals, _ = HS.values(case)
+    I = E.to_nx(case["I"])
+    for i, (st, g) in enumerate(vals):
+        if not HS.is_query(st):
+            if st[0] != "mut_res":
+                HS.apply_edit_nx(I, st)
+            continue
+        V = E.to_nx(g)
+        cls = its_class(V)
+        if cls is None or st[0] not in ("rc", "k", "hk", "ctx", "ctx2", "list") or (st[0] != "rc" and st[1] < 0):
+            continue
+        el = {n: d["element"] for n, d in V.nodes(data=True)}
+        bonds = {frozenset((u, v)) for u, v, d in V.edges(data=True) if differs(d["order"], cls) or (el[u] == "H" and el[v] == "H")}
+        centre = {x for b in bonds for x in b}
+        ret, _o = HS.run_query(I, st)
+        k = 0 if st[0] == "rc" else st[1]
+        want = _ball(V, centre, k)
+        for r in ret:
+            if set(r.nodes) != want:
+                fails.append(dict(clause="history-context-atoms", detail="step %d %r: atoms %r, atoms within %d bonds of the centre of the CURRENT ITS %r; earlier steps %r"
+                                  % (i, st, sorted(r.nodes), k, sorted(want), [s_ for s_, _ in vals[:i]])))
+                return fails
+    return fails
+
+
+def oracle_wrap(case):
+    w = case["wrap"]
+    from synkit.Graph.ITS.its_construction import ITSConstruction
+    from synkit.Graph.ITS.its_decompose import get_rc
+    from synkit.Graph.Context.radius_expand import RadiusExpand
+    fails = []
+    if w == "hier":
+        from synkit.Graph.Context.hier_context import HierContext
+        data = [{"R-id": i, "ITS": E.to_nx(g)} for i, g in enumerate(case["Is"])]
+        res, _tpl = HierContext(max_radius=case["R"]).fit(data)
+        if sorted(d["R-id"] for d in res) != list(range(len(data))):
+            return [dict(clause="wrapper-hier", detail="HierContext.fit returned entries %r for %d inputs" % ([d.get("R-id") for d in res], len(data)))]
+        for d in res:
+            V = E.to_nx(case["Is"][d["R-id"]])
+            cls = its_class(V)
+            if cls is None:
+                continue
+            el = {n: x["element"] for n, x in V.nodes(data=True)}
+            centre = {x for u, v, e in V.edges(data=True) if differs(e["order"], cls) or (el[u] == "H" and el[v] == "H") for x in (u, v)}
+            want = _ball(V, centre, case["R"])
+            if set(d["K"].nodes) != want:
+                fails.append(dict(clause="wrapper-hier", detail="HierContext.fit(max_radius=%d): entry %d has context atoms %r, atoms within %d bonds of the centre %r"
+                                  % (case["R"], d["R-id"], sorted(d["K"].nodes), case["R"], sorted(want))))
+        return fails[:3]
+    G, H = _wrap_graphs(case)
+    if G is None or H is None:
+        return []
+    if w == "rsmi_to_its":
+        from synkit.IO.chem_converter import rsmi_to_its
+        got = rsmi_to_its(case["rsmi"], core=case["core"])
+        I = ITSConstruction.ITSGraph(G, H)
+        want = get_rc(I) if case["core"] else I
+        if not HS.graph_eq(got, want):
+            fails.append(dict(clause="wrapper-rsmi_to_its", detail="rsmi_to_its(core=%s) is not %s" % (case["core"], "get_rc(ITSGraph(r, p))" if case["core"] else "ITSGraph(r, p)")))
+        if case["core"]:
+            fails += sides_clause(dict(rsmi=case["rsmi"]), I)
+        return fails
+    if w == "implicit_rule":
+        from synkit.Rule.Modify.implict_rule import implicit_rule
+        got = implicit_rule(case["rsmi"], case["disc"], case["bal"])
+        I = ITSConstruction.ITSGraph(G, H, balance_its=case["bal"])
+        bonds, atoms = ref_centre(I, list(X.DEFAULT_KEYS), case["disc"], False)
+        if {frozenset(e) for e in got.edges} != set(bonds) or set(got.nodes) != set(atoms):
+            fails.append(dict(clause="wrapper-implicit_rule", detail="implicit_rule(disconnected=%s, balance_its=%s): atoms %r bonds %r, expected atoms %r bonds %r"
+                              % (case["disc"], case["bal"], sorted(got.nodes), sorted(map(sorted, got.edges)), sorted(atoms), sorted(map(sorted, bonds)))))
+        return fails
+    return fails
+
+
 def oracle(case):
     from synkit.Graph.ITS.its_decompose import get_rc
+    if "hist" in case:
+        return oracle_hist(case)
+    if "wrap" in case:
+        return oracle_wrap(case)
+    if case.get("raw"):
+        return []
     if "X" in case:
         return oracle_x(case)
     if "Is" in case:
@@ -618,10 +787,15 @@ def oracle(case):
 
 
 def _special(case):
-    return "X" in case or "Is" in case or "helpers" in case or bool(case.get("lre"))
+    return "X" in case or "Is" in case or "helpers" in case or bool(case.get("lre")) or "hist" in case or "wrap" in case or bool(case.get("raw"))
 
 
 def nontrivial(case, obs):
+    if "hist" in case:
+        # the answers of two steps differ (the history is not a repetition of one value)
+        return isinstance(obs, list) and len(obs) >= 2 and any(o != obs[0] for o in obs[1:])
+    if "wrap" in case or case.get("raw"):
+        return isinstance(obs, list) and len(obs) > 0
     if "X" in case:
         # some option changes the centre
         return isinstance(obs, list) and len(obs) == 4 and any(o != obs[0] for o in obs[1:])
@@ -641,8 +815,15 @@ def nontrivial(case, obs):
 def distribution(cases, obss):
     sizes, rcs, grow, hh, incons, empty = {}, {}, 0, 0, 0, 0
     kinds, opt_eff, lre_len, ia_zeroed = {}, {"keep_mtg": 0, "disconnected": 0, "both_differ_from_each": 0}, {}, 0
+    hist_ops = {}
     for c, o in zip(cases, obss):
         kinds[c.get("kind", "?")] = kinds.get(c.get("kind", "?"), 0) + 1
+        if "hist" in c:
+            for st in c["hist"]:
+                hist_ops[st[0]] = hist_ops.get(st[0], 0) + 1
+            continue
+        if "wrap" in c or c.get("raw"):
+            continue
         if "X" in c:
             if isinstance(o, list) and len(o) == 4:
                 opt_eff["keep_mtg"] += o[1] != o[0]
@@ -673,12 +854,14 @@ def distribution(cases, obss):
             incons += 1
         if "ia" in c and c["ia"] and any(e[4] == 0 and e[2] != e[3] for e in o[3][1]["__set__"]):
             ia_zeroed += 1
-    return dict(option_changes_centre=opt_eff, longest_extension_lengths=lre_len,
+    return dict(history_step_kinds=hist_ops, option_changes_centre=opt_eff, longest_extension_lengths=lre_len,
                 ignore_aromaticity_its_with_zeroed_half_order_change=ia_zeroed, context3_sizes=sizes, centre_sizes=rcs, strictly_growing_to_radius_3=grow, centre_with_unchanged_HH_bond=hh,
                 centre_with_inconsistent_standard_order=incons, empty_centre=empty)
 
 
 def shrink(case, fl):
+    if "hist" in case or "wrap" in case or case.get("raw"):
+        return case
     if "X" in case:
         cur = case
         changed = True
@@ -979,6 +1162,115 @@ def gen_big(rng, tier):
     return cases
 
 
+def gen_histories(rng, tier):
+    """scripts on ONE shared ITS object (round 3): radii in different orders, in-place edits between extractions (count-preserving
+    and count-changing), non-default options before/after defaults, caller-side mutation of returned graphs, the same object
+    several times in one list"""
+    q = tier == "quick"
+    cases = []
+    per = {"a": 60, "b": 120, "b2": 90, "c": 70, "d": 50, "e": 40} if q else {"a": 400, "b": 900, "b2": 700, "c": 500, "d": 300, "e": 300}
+    for fl, cnt in per.items():
+        for _ in range(cnt):
+            g = _rand_its(rng, rng.randint(2, 9), "its-rand") if rng.random() < 0.85 else _cyclic_its(rng, rng.randint(3, 6))
+            for e in g["edges"]:
+                e[2].pop("is_mtg", None)
+            g = X.canon(g)
+            cases.append(dict(kind="hist-" + fl, I=g, hist=HS.gen_history(rng, g, fl)))
+    # hand-written: the C02-w2-1 scenario and its siblings on a chain 1-2-3-4-5-6 with one changed bond
+    chain = {"nodes": [[i, its_node(i, "C")] for i in range(1, 7)],
+             "edges": [[1, 2, its_edge(1, 2)]] + [[i, i + 1, its_edge(1, 1)] for i in range(2, 6)]}
+    fixed = [
+        [["k", 1], ["set_edge", 5, 6, 1, 0, 1], ["k", 1], ["k", 0], ["k", 2]],
+        [["k", 1], ["set_edge", 1, 2, 1, 1, 0], ["k", 1], ["rc"], ["uneq"]],
+        [["k", 2], ["k", 0], ["k", 1], ["k", -1], ["k", 3]],
+        [["ctx", 1], ["set_el", 5, "H"], ["set_el", 6, "H"], ["ctx", 1], ["k", 1]],
+        [["k", -1], ["set_edge", 3, 4, 1, 2, -1], ["k", -1], ["k", 1]],
+        [["rcx", ["element"], True, True, "pos"], ["rc"], ["k", 1], ["rcx", ["element", "charge", "typesGH", "atom_map"], False, False, "kw"]],
+        [["rc"], ["mut_res", 0, "clear"], ["rc"], ["k", 1], ["mut_res", 2, "del_node"], ["k", 1]],
+        [["list", 1, 3, 1], ["set_edge", 5, 6, 1, 2, -1], ["list", 1, 3, 1], ["hk", 1]],
+        [["k", 1], ["del_edge", 1, 2], ["k", 1], ["add_edge", 1, 6, 0, 1, -1], ["k", 1]],
+        [["k", 1], ["del_node", 1], ["k", 1], ["add_node", 9, "C"], ["add_edge", 9, 6, 0, 1, -1], ["k", 1]],
+        [["k", 1], ["set_chg", 4, 1], ["k", 1], ["rcx", ["element", "charge", "typesGH", "atom_map"], True, False, "kw"]],
+        [["nn", 1], ["set_edge", 4, 5, 1, 0, 1], ["nn", 1], ["rne"], ["uneq"]],
+    ]
+    for h in fixed:
+        cases.append(dict(kind="hist-fixed", I=X.canon(chain), hist=h))
+    return cases
+
+
+def gen_wrappers(rng, tier):
+    """rsmi_to_its(core=...), implicit_rule(disconnected, balance_its) positional and by keyword, HierContext.fit"""
+    q = tier == "quick"
+    corpus = [(s_, i, r) for s_, i, r in R.load_corpus() if R.well_formed(r)]
+    cases = []
+    for s_, i, r in rng.sample(corpus, 24 if q else 200):
+        src = "%s#%d" % (s_, i)
+        cases.append(dict(kind="wrap-core", wrap="rsmi_to_its", rsmi=r, core=rng.random() < 0.8, src=src))
+        # synkit.Rule.Modify.implict_rule.implicit_rule is not importable on the unchanged tree (ImportError: remove_explicit_H_from_rsmi
+        # is not exported by synkit.Chem.Reaction), so that wrapper cannot be exercised; its body is get_rc(ITSGraph(r, p, balance_its=...),
+        # disconnected=...), which the option populations cover.  (impl_wrap / oracle_wrap keep the branch for the day it is repaired.)
+    pool = [c["I"] for c in gen_random_its(rng, 60, "its-rand", maxn=8)]
+    for _ in range(12 if q else 100):
+        cases.append(dict(kind="wrap-hier", wrap="hier", Is=[rng.choice(pool) for _ in range(rng.randint(1, 4))], R=rng.choice((1, 2, 3))))
+    return cases
+
+
+def gen_degenerate():
+    """empty ITS, single atom, isolated atoms, no changed bond, node ids 0 and large, large radii, standard_order 0 / 0.0 / -0.0,
+    element "" / "*" / absent, self loops; and (raw: outside the model, monitored only) standard_order None / absent / a string, order as a list"""
+    cases = []
+    empty = {"nodes": [], "edges": []}
+    one = {"nodes": [[0, its_node(0, "C")]], "edges": []}
+    iso = {"nodes": [[0, its_node(0, "H")], [7, its_node(7, "H")], [1000000, its_node(1000000, "C")]], "edges": []}
+    nochg = {"nodes": [[0, its_node(0, "C")], [1, its_node(1, "O")], [2, its_node(2, "H")]], "edges": [[0, 1, its_edge(1, 1)], [1, 2, its_edge(1, 1)]]}
+    hh_only = {"nodes": [[0, its_node(0, "H")], [1, its_node(1, "H")], [2, its_node(2, "C")]], "edges": [[0, 1, its_edge(1, 1)], [1, 2, its_edge(1, 1)]]}
+    zeros = {"nodes": [[0, its_node(0, "C")], [1, its_node(1, "C")], [2, its_node(2, "C")], [3, its_node(3, "C")]],
+             "edges": [[0, 1, its_edge(1, 1, 0.0)], [1, 2, its_edge(1.5, 1.5, -0.0)], [2, 3, its_edge(0, 1)]]}
+    big_ids = {"nodes": [[0, its_node(0, "C")], [4000000000, its_node(4000000000, "C")], [123456, its_node(123456, "N", amap=-5)]],
+               "edges": [[0, 4000000000, its_edge(2, 1)], [4000000000, 123456, its_edge(1, 1)]]}
+    odd_el = {"nodes": [[0, its_node(0, "")], [1, its_node(1, "*")], [2, its_node(2, "H")]], "edges": [[0, 1, its_edge(1, 0)], [1, 2, its_edge(1, 1)]]}
+    for name, g in (("empty", empty), ("one", one), ("isolated", iso), ("no-changed-bond", nochg), ("hh-only", hh_only),
+                    ("zero-forms", zeros), ("ids-0-and-large", big_ids), ("element-empty-star", odd_el)):
+        cases.append(dict(kind="degen", I=g, name="degen/%s" % name))
+        cases.append(dict(kind="degen-help", I=g, helpers=[0, 1, 50], name="degen/%s/helpers" % name))
+        cases.append(dict(kind="degen-lre", I=X.canon(g), lre=True, name="degen/%s/n_knn=-1" % name))
+        cases.append(dict(kind="degen-x", X=g, keys=list(X.DEFAULT_KEYS), name="degen/%s/options" % name))
+        cases.append(dict(kind="degen-x", X=g, keys=[], name="degen/%s/options-no-keys" % name))
+        cases.append(dict(kind="degen-list", Is=[g, empty, g], k=1, name="degen/%s/list" % name))
+        cases.append(dict(kind="degen-hist", I=X.canon(g), hist=[["k", 1], ["add_node", 77, "H"], ["k", 1], ["k", -1], ["rc"], ["list", 0, 2, 1]],
+                          name="degen/%s/history" % name))
+    cases.append(dict(kind="degen-list", Is=[], k=1, name="degen/empty-list"))
+    # element key absent / falsy labels on some nodes only
+    xg = {"nodes": [[0, {"charge": 0, "atom_map": 0, "typesGH": [["H", False, 0, 0, []], ["H", False, 0, 0, []]]}],
+                    [1, {"element": "H", "charge": 0, "atom_map": 0}], [2, {"element": "", "atom_map": 2, "typesGH": [["", False, 0, 0, []], ["", False, 0, 1, []]]}]],
+          "edges": [[0, 1, {"order": [1, 1], "standard_order": 0, "is_mtg": False}], [1, 2, {"order": [0, 0], "standard_order": 0, "is_mtg": True}]]}
+    for keys in X.KEY_CHOICES:
+        cases.append(dict(kind="degen-x", X=xg, keys=list(keys), name="degen/absent-labels/%s" % "+".join(keys)))
+    # self loop (networkx allows it; outside the theorems' wf hypothesis, inside the executable model)
+    loop = {"nodes": [[0, its_node(0, "H")], [1, its_node(1, "C")]], "edges": [[0, 0, its_edge(1, 0)], [0, 1, its_edge(1, 1)], [1, 1, its_edge(1, 1)]]}
+    cases.append(dict(kind="degen-selfloop", I=loop, name="degen/self-loop"))
+    cases.append(dict(kind="degen-selfloop", I=loop, helpers=[0, 1, 2], name="degen/self-loop/helpers"))
+    # outside the model: monitored only
+    for name, attrs in (("std-none", {"order": [1, 2], "standard_order": None}), ("std-absent", {"order": [1, 2]}),
+                        ("std-string", {"order": [1, 2], "standard_order": "1"}), ("order-as-list", {"order": [1, 2], "standard_order": -1}),
+                        ("order-absent", {"standard_order": -1})):
+        g = {"nodes": [[0, its_node(0, "C")], [1, its_node(1, "C")], [2, its_node(2, "C")]], "edges": [[0, 1, attrs], [1, 2, {"order": [1, 1], "standard_order": 0}]]}
+        cases.append(dict(kind="degen-raw", I=g, raw=True, name="degen/raw/%s" % name))
+    return cases
+
+
+def gen_huge(rng, tier):
+    """>= 100 atoms (three-digit node ids / atom maps)"""
+    cases = []
+    for _ in range(4 if tier == "quick" else 30):
+        cases.append(dict(kind="its-huge", I=_big_its(rng, rng.randint(100, 150))))
+    for _ in range(2 if tier == "quick" else 15):
+        cases.append(dict(kind="help-huge", I=_big_its(rng, rng.randint(100, 150)), helpers=HELPER_RADII))
+    g = X.canon(_big_its(rng, 110))
+    cases.append(dict(kind="hist-huge", I=g, hist=HS.gen_history(rng, g, "b")))
+    return cases
+
+
 def gen_cases(tier, rng):
     exh = gen_exhaustive_its()
     cases = list(exh)
@@ -993,4 +1285,8 @@ def gen_cases(tier, rng):
     cases += gen_ia(rng, tier)
     cases += gen_corpus_ext(rng, 30 if q else None)
     cases += gen_big(rng, tier)
+    cases += gen_histories(rng, tier)
+    cases += gen_wrappers(rng, tier)
+    cases += gen_degenerate()
+    cases += gen_huge(rng, tier)
     return cases
